@@ -19,9 +19,39 @@ class RTr(Tr):
     `int(i * x)`, `int(x)`, `round(…)` become calls of `C06Round.roundFl / truncFl / roundHalfEven / truncQ`;
     comparisons of a float leaf with a literal become integer comparisons."""
 
-    def __init__(self, binds, bool_binds=None, floats=None):
+    # Python type of the object bound to a float leaf, as a code (parameter `ty` of the kernel): 0 int, 1 bool, 2 float,
+    # 3 np.int64, 4 np.int32, 5 np.float64 (a subclass of float), 6 np.float32, 7 0-d integer ndarray, 8 0-d float ndarray,
+    # 9 torch scalar tensor.  `isinstance(x, T)` becomes membership of `ty` in the codes of T: a branch decided on the
+    # TYPE of a value is thereby a different Lean term from one decided on the VALUE.
+    TYPE_CODES = {"int": [0, 1], "bool": [1], "float": [2, 5], "np.integer": [3, 4], "numpy.integer": [3, 4], "np.int64": [3], "np.int32": [4],
+                  "np.floating": [5, 6], "numpy.floating": [5, 6], "np.float64": [5], "np.float32": [6],
+                  "numbers.Integral": [0, 1, 3, 4], "Integral": [0, 1, 3, 4], "numbers.Real": [0, 1, 2, 3, 4, 5, 6],
+                  "Real": [0, 1, 2, 3, 4, 5, 6], "numbers.Number": [0, 1, 2, 3, 4, 5, 6], "Number": [0, 1, 2, 3, 4, 5, 6],
+                  "np.number": [3, 4, 5, 6], "np.generic": [3, 4, 5, 6], "np.ndarray": [7, 8], "torch.Tensor": [9]}
+
+    def __init__(self, binds, bool_binds=None, floats=None, types=None):
         super().__init__(binds, bool_binds)
         self.floats = dict(floats or {})
+        self.types = dict(types or {})
+
+    def _isinstance(self, node):
+        """`isinstance(<typed leaf>, T)` / `type(<leaf>) is T` / `type(<leaf>) == T` -> membership test on the type code"""
+        leaf = tys = None
+        exact = False
+        if isinstance(node, ast.Call) and isinstance(node.func, ast.Name) and node.func.id == "isinstance" and len(node.args) == 2:
+            leaf, tys = node.args
+        elif isinstance(node, ast.Compare) and len(node.ops) == 1 and isinstance(node.ops[0], (ast.Is, ast.Eq)) \
+                and isinstance(node.left, ast.Call) and ast.unparse(node.left.func) == "type" and len(node.left.args) == 1:
+            leaf, tys, exact = node.left.args[0], node.comparators[0], True
+        if leaf is None or ast.unparse(leaf) not in self.types:
+            return None
+        names = [ast.unparse(e) for e in tys.elts] if isinstance(tys, ast.Tuple) else [ast.unparse(tys)]
+        codes: set[int] = set()
+        for n in names:
+            if n not in self.TYPE_CODES:
+                raise Untranslatable(f"isinstance against `{n}`")
+            codes |= set(self.TYPE_CODES[n]) if not exact else {self.TYPE_CODES[n][0]}
+        return f"(decide ({self.types[ast.unparse(leaf)]} ∈ ([{', '.join(map(str, sorted(codes)))}] : List Int)))"
 
     def _is_float(self, node) -> bool:
         return ast.unparse(node) in self.floats
@@ -75,6 +105,9 @@ class RTr(Tr):
         return None
 
     def bool(self, node):
+        t = self._isinstance(node) if ast.unparse(node) not in self.bool_binds else None
+        if t is not None:
+            return t
         # (chained) comparisons between float leaves and integer-valued literals: cross-multiplied (denominators > 0)
         if isinstance(node, ast.Compare) and ast.unparse(node) not in self.bool_binds:
             ops = [node.left] + list(node.comparators)
@@ -99,7 +132,7 @@ def num_low_if_exact():
     """`if <test on center_fraction>: num_low_freqs = A else: num_low_freqs = B`, float glue translated"""
 
     def build(k, fn):
-        tr = RTr({"num_cols": "num_cols"}, None, _CF)
+        tr = RTr({"num_cols": "num_cols"}, None, _CF, {"center_fraction": "ty"})
         for st in all_stmts(fn):
             if isinstance(st, ast.If) and st.orelse and len(st.body) == 1 and len(st.orelse) == 1:
                 a, b = st.body[0], st.orelse[0]
@@ -136,7 +169,7 @@ def assign_exact(target: str, floats: dict, nth: int = 0):
     """right-hand side of the nth assignment to `target`, float glue translated"""
 
     def build(k, fn):
-        tr = RTr({"num_cols": "num_cols"}, None, floats)
+        tr = RTr({"num_cols": "num_cols"}, None, floats, {"center_fraction": "ty"} if "center_fraction" in floats else {"acceleration": "ty"})
         return emit_def(k.name, k.params, [], tr.int(find_assign(fn, target, nth).value))
 
     return build
@@ -225,23 +258,23 @@ register("C06", [
            "MaskGeom.zeroPadStart", zero_pad_slice(0), imports=MG),
     Kernel("zero_pad_stop", F, "KtBaseMaskFunc.zero_pad_to_center", ["target_dim", "current_dim"],
            "(fun t c => MaskGeom.zeroPadStart t c + c)", zero_pad_slice(1), imports=MG),
-    Kernel("num_low_random", F, "RandomMaskFunc.mask_func", ["num_cols", "cf_num", "cf_den"],
-           "(fun n a b => C06Round.numLowFraction n a b)", num_low_if_exact(), imports=RD),
-    Kernel("num_low_equispaced", F, "EquispacedMaskFunc.mask_func", ["num_cols", "cf_num", "cf_den"],
-           "(fun n a b => C06Round.numLowFraction n a b)", num_low_if_exact(), imports=RD),
-    Kernel("num_low_magic", F, "MagicMaskFunc.mask_func", ["num_cols", "cf_num", "cf_den"],
-           "(fun n a b => C06Round.numLowMagicRaw n a b)", num_low_if_exact(), imports=RD),
-    Kernel("magic_target", F, "MagicMaskFunc.mask_func", ["num_cols", "acc_num", "acc_den"],
-           "(fun n a b => ((C06Round.roundQuot n.toNat a.toNat b.toNat : Nat) : Int))",
+    Kernel("num_low_random", F, "RandomMaskFunc.mask_func", ["num_cols", "cf_num", "cf_den", "ty"],
+           "(fun n a b _ => C06Round.numLowFraction n a b)", num_low_if_exact(), imports=RD),
+    Kernel("num_low_equispaced", F, "EquispacedMaskFunc.mask_func", ["num_cols", "cf_num", "cf_den", "ty"],
+           "(fun n a b _ => C06Round.numLowFraction n a b)", num_low_if_exact(), imports=RD),
+    Kernel("num_low_magic", F, "MagicMaskFunc.mask_func", ["num_cols", "cf_num", "cf_den", "ty"],
+           "(fun n a b _ => C06Round.numLowMagicRaw n a b)", num_low_if_exact(), imports=RD),
+    Kernel("magic_target", F, "MagicMaskFunc.mask_func", ["num_cols", "acc_num", "acc_den", "ty"],
+           "(fun n a b _ => ((C06Round.roundQuot n.toNat a.toNat b.toNat : Nat) : Int))",
            assign_exact("target_cols_to_sample", _ACC), imports=RD),
-    Kernel("num_low_gaussian1d", F, "Gaussian1DMaskFunc.mask_func", ["num_cols", "cf_num", "cf_den"],
-           "(fun n a b => ((C06Round.roundMul n.toNat a.toNat b.toNat : Nat) : Int))",
+    Kernel("num_low_gaussian1d", F, "Gaussian1DMaskFunc.mask_func", ["num_cols", "cf_num", "cf_den", "ty"],
+           "(fun n a b _ => ((C06Round.roundMul n.toNat a.toNat b.toNat : Nat) : Int))",
            assign_exact("num_low_freqs", _CF), imports=RD),
-    Kernel("num_low_ktuniform", F, "KtUniformMaskFunc.mask_func", ["num_cols", "cf_num", "cf_den"],
-           "(fun n a b => ((C06Round.roundMul n.toNat a.toNat b.toNat : Nat) : Int))",
+    Kernel("num_low_ktuniform", F, "KtUniformMaskFunc.mask_func", ["num_cols", "cf_num", "cf_den", "ty"],
+           "(fun n a b _ => ((C06Round.roundMul n.toNat a.toNat b.toNat : Nat) : Int))",
            assign_exact("num_low_freqs", _CF), imports=RD),
-    Kernel("num_low_ktgaussian1d", F, "KtGaussian1DMaskFunc.mask_func", ["num_cols", "cf_num", "cf_den"],
-           "(fun n a b => ((C06Round.roundMul n.toNat a.toNat b.toNat : Nat) : Int))",
+    Kernel("num_low_ktgaussian1d", F, "KtGaussian1DMaskFunc.mask_func", ["num_cols", "cf_num", "cf_den", "ty"],
+           "(fun n a b _ => ((C06Round.roundMul n.toNat a.toNat b.toNat : Nat) : Int))",
            assign_exact("num_low_freqs", _CF), imports=RD),
     *[Kernel(f"ctor_accepts_{nm.lower()}", F, f"{nm}MaskFunc.__init__", ["cf_num", "cf_den", "is_int"],
              "(fun a b i => C06Round.fractionAccepted a b i)" if nm.startswith("FastMRI") else "(fun a b i => C06Round.countAccepted a b i)",
